@@ -9,7 +9,7 @@
 
 Each property picks its clause from the same runs.
 """
-import hist, heapcorr, vlib
+import hist, heapcorr, apicorr, vlib
 
 MODULES = {'C09': ['Hl7.Props.C09'], 'C10': ['Hl7.Props.C10'], 'C11': ['Hl7.Props.C11'], 'C12': ['Hl7.Props.C12', 'Hl7.Props.C10']}
 THEOREMS = {
@@ -51,6 +51,31 @@ def low_level(chk, n):
     return ok
 
 
+def api_level(chk, n):
+    """correspondence of public-API histories (tools/apicorr.py) with Hl7.Heap through the call-by-call translation"""
+    runs = apicorr.collect(chk.rng, n)
+    ok = []
+    for r in runs:
+        if 'harness' in r:
+            chk.broken.append({'kind': 'harness', 'log': r['harness'][:500]})
+        else:
+            ok.append(r)
+    cases, a, b = [], [], []
+    tags, kinds = {}, {}
+    for r in ok:
+        k = next((i for i in range(len(r['impl'])) if r['impl'][i] != r['model'][i]), None)
+        cases.append({'history': r['history'], 'line': r['line'][:400], 'first_difference_at': k, 'call': r['history']['ops'][k] if k is not None else None})
+        a.append('|'.join(r['impl']))
+        b.append('|'.join(r['model']))
+        for op, x in zip(r['history']['ops'], r['impl']):
+            tags[x.split(' ')[0]] = tags.get(x.split(' ')[0], 0) + 1
+            kinds[op[0]] = kinds.get(op[0], 0) + 1
+    chk.correspond('public API calls on a Segment / Message (assignment by name and index, add, add_<child>, del, remove, parent setter, moves) vs their translation into Hl7.Heap '
+                   '(call by call: outcome, child lists of both parents, parent of every element)', cases, a, b)
+    chk.dist['api_level_correspondence'] = {'histories': len(ok), 'calls_by_kind': kinds, 'outcomes': tags}
+    return ok
+
+
 def steps(r):
     """iterate (i, op, mop, tag, before_dump, after_dump) of one low-level run (parsed dumps)"""
     n = len(r['history']['nodes'])
@@ -82,6 +107,10 @@ def api_histories(chk, nseg, nmsg, maxlen=14):
 
 def sizes(tier):
     return {'quick': (500, 700, 250), 'thorough': (12000, 9000, 3000)}[tier]      # low-level, segment histories, message histories
+
+
+def api_size(tier):
+    return {'quick': 300, 'thorough': 6000}[tier]
 
 
 def replay_history(h, upto):
